@@ -31,6 +31,21 @@ CHECKS = [
              "modularly) with the documented value, every write lies on the addressed chain and upper levels are created only when absent (frame), the RPM list is extended; each refusal raises "
              "ValueError/TypeError exactly under the documented conditions and writes nothing. _relative_to strips only on a component boundary.",
      "note": _NOTE + "; manifests assumed tree-shaped with the nested dict/list shape invariant; dump_for_tree's loop is bounded only"},
+    {"id": "C04", "technique": "contract-based deductive verification: pyvc VCs/SMT on the flat treeinfo section writers/readers over an A2 model of ConfigParser (layout, omission rules, round-trip lemma) + bounded stand-in for variant sections, tables and discinfo",
+     "text": "For the [base_product], [release], [stage2] and [media] sections the real serialize/deserialize are verified path by path against the documented option layout, the "
+             "rule that optional sections are omitted only when empty, and reader(writer(x)) == norm(x) for every valid representable x. Variant forests, image tables, checksums, "
+             "platform sets and .discinfo are exercised by random objects through the real dumps/loads (bounded).",
+     "note": _NOTE + "; A2 (ConfigParser set/get/write/read_file incl. the effect of interpolation=None, read from the real constructor call); A5; containers bounded only"},
+    {"id": "C17", "technique": "contract-based deductive verification: symbolic execution of the real TreeInfo.serialize (all nine section writers + General.serialize) with VCs per [general] option, for 1-2 top-level variants with symbolic values + AST clause on main_variant pass-through",
+     "text": "The whole TreeInfo.serialize is executed symbolically over the A2 parser model; for every path the [general] family/version/name/arch/platforms/timestamp are proved equal "
+             "to [release]/[tree] values, 'variants' to the sorted top-level keys, 'variant' to the requested main variant or else the first key, packagedir/repository to that variant's "
+             "paths with the src fallback. Proved for 1 or 2 top-level variants and one extra platform with fully symbolic names/paths/arch/timestamp; larger trees are bounded.",
+     "note": _NOTE + "; bounded in the NUMBER of top-level variants (2) and extra platforms (1); float timestamps bounded only; A2, A5"},
+    {"id": "C18", "technique": "contract-based deductive verification: effect-log VCs on the real MetadataBase.dump / TreeInfo.dump / open_file_obj (no open-for-write precedes a validation error on any path), callee contracts used modularly + AST clauses + bounded fault enumeration",
+     "text": "Both dump implementations are executed symbolically with validate/serialize replaced by their contracts (return, or TypeError/ValueError, touching no file): on every "
+             "exceptional path the destination has not been opened for writing; on the normal path exactly one open and one write of the serialised data occur. AST clauses show no other "
+             "dump implementation exists and no serializer touches files. Every nested validator failure of all seven formats is replayed natively (bounded).",
+     "note": _NOTE + "; A4 (open(...,'w') truncates at open), A1/A2 (render step raises no TypeError/ValueError on serialised data)"},
     {"id": "C06", "technique": "contract-based deductive verification: pyvc VCs/SMT -- validate() of every flat metadata class proved equivalent to the documented field rules; section writers proved to write only valid objects + bounded one-field-corruption enumeration for containers",
      "text": "For 15 metadata classes validate() (reflection resolved from the AST and cross-checked against dir()) is proved to return iff the documented field rules hold, to raise only "
              "TypeError/ValueError and to change nothing; the flat section writers are proved to return only for valid objects and to write nothing on refusal. Nested containers are covered by "
